@@ -657,9 +657,11 @@ Example C11_witness_typed :
   match row_feature Blast (Some (bs "hit"%bs)) ex3_hs ex3_row with
   | Ok f => assoc (bs "sframe"%bs) (f_fmt f) = Some (AInt (-1)) /\ assoc (bs "qframe"%bs) (f_fmt f) = Some (AInt 1) /\
             assoc (bs "bitscore"%bs) (f_fmt f) = Some (AFlt (FNum false 0 (-1))) /\
-            f_common f = [(bs "type"%bs, AStr (bs "hit"%bs)); (bs "score"%bs, AFlt (FNum false 0 (-1)));
-                          (bs "evalue"%bs, AFlt (FNum false 25 (-13))); (bs "seqid"%bs, AStr (bs "chr1"%bs));
-                          (bs "name"%bs, AStr (bs "q1"%bs))]
+            assoc (bs "type"%bs) (f_common f) = Some (AStr (bs "hit"%bs)) /\
+            assoc (bs "score"%bs) (f_common f) = Some (AFlt (FNum false 0 (-1))) /\
+            assoc (bs "evalue"%bs) (f_common f) = Some (AFlt (FNum false 25 (-13))) /\
+            assoc (bs "seqid"%bs) (f_common f) = Some (AStr (bs "chr1"%bs)) /\
+            assoc (bs "name"%bs) (f_common f) = Some (AStr (bs "q1"%bs)) /\ length (f_common f) = 5%nat
   | Err _ => False
   end.
 Proof. exact witness_typed. Qed.
